@@ -259,6 +259,8 @@ def check(ctx, rep):
     default_carrier_guard(ctx, rep, 'C03b')
     from .common import self_accumulation_rule
     self_accumulation_rule(ctx, rep, 'C03b', ('peptacular.chem.chem_calc', 'peptacular.mass_calc'))
+    from .common import stale_accumulator_rule
+    stale_accumulator_rule(ctx, rep, 'C03b', ('peptacular.chem.chem_calc', 'peptacular.mass_calc'), floor=3)
     multiplier_parity(ctx, rep, 'C03e')
     unwrap_sites(ctx, rep, 'C03e')
     definition_pairing(ctx, rep, 'C03f')
